@@ -181,7 +181,7 @@ def check_decoding(ctx, w):
         if 'dwarf_section = self._read_dwarf_section(section, relocate_dwarf_sections)' not in src or U(stores[-1].value) != 'dwarf_section':
             ok_read = False
         conds = expr.Facts(expr.CP(expr.cond_str(t, env), pol) for t, pol in p.conds())
-        z = conds.get(expr.spec_cond("compressed and startswith(secname, '.z')"))
+        z = conds.truth("compressed and startswith(secname, '.z')")
         if z is None:
             ok_z = False
         elif z and 'dwarf_section = self._decompress_dwarf_section(dwarf_section)' not in src:
